@@ -55,6 +55,40 @@ func (a alphabet) describe() string {
 type extraOracle func(w *World) string
 
 func runAlphabet(rep *rt.Report, a alphabet, deadline time.Time, extra extraOracle) *seq.Stats {
+	st := seq.Explore(alphabetCfg(a, deadline, extra))
+	absorb(rep, a.describe(), st)
+	return st
+}
+
+// absorbLasso folds the result of a lasso exploration into the report.
+func absorbLasso(rep *rt.Report, rule string, st *seq.LassoStats) {
+	rep.Add("states", st.Lassos)
+	rep.Add("transitions", st.Runs)
+	rep.Add("traces_validated_against_impl", st.Runs)
+	rep.Add("evaluations", st.Runs)
+	rep.Add("distinct_nontrivial", st.Lassos)
+	rep.Sub[st.Name] = map[string]any{"rule": rule, "stats": st}
+	if !st.Exhaustive {
+		rep.NotExhaustive(st.Name + ": " + st.Cap)
+	}
+	for id, k := range st.Known {
+		for i := 0; i < k.Count; i++ {
+			rep.KnownHit(id, fmt.Sprint(k.Witness), k.Msg)
+		}
+	}
+	for _, v := range st.Violations {
+		rep.Violate(fmt.Sprintf("[%s] %v => %s", st.Name, v.Hist, v.Msg), map[string]any{"run": st.Name, "history": v.Hist, "ops": v.Raw})
+	}
+}
+
+// runLasso: every stem of <= stem operations followed by every cycle of <= cycle operations repeated up to
+// repeats times on one instance (long histories of few operations; nothing is merged).
+func runLasso(rep *rt.Report, a alphabet, stem, cycle, repeats int, deadline time.Time, extra extraOracle) {
+	st := seq.Lasso(alphabetCfg(a, deadline, extra), stem, cycle, repeats)
+	absorbLasso(rep, fmt.Sprintf("%s; lassos: every stem of <= %d operations, then every cycle of 1..%d operations repeated up to %d times on one instance, judged after every repetition", a.describe(), stem, cycle, repeats), st)
+}
+
+func alphabetCfg(a alphabet, deadline time.Time, extra extraOracle) seq.Config {
 	ops := a.ops()
 	cfg := seq.Config{
 		Name:     a.name,
@@ -101,9 +135,7 @@ func runAlphabet(rep *rt.Report, a alphabet, deadline time.Time, extra extraOrac
 			return seq.Outcome{Key: w.ModelKey() + "#" + w.ImplKey()}
 		},
 	}
-	st := seq.Explore(cfg)
-	absorb(rep, a.describe(), st)
-	return st
+	return cfg
 }
 
 // classify maps a failure to an open known finding or to a violation.
@@ -175,6 +207,20 @@ func C01(tier rt.Tier) int {
 		runAlphabet(rep, a, time.Now().Add(per), nil)
 	}
 	{
+		// long histories of one instance: every cycle of up to 3 operations (and every 1-operation stem + cycle
+		// of up to 2) over nested paths, repeated many times
+		lp := []string{"aa", "aaab", "ab"}
+		reps := 16
+		if tier == rt.Thorough {
+			reps = 48
+		}
+		am := alphabet{name: "lasso-mem", kind: Mem, paths: lp, vals: []string{"x", "y"}, depth: 1, version: 1}
+		runLasso(rep, am, 0, 3, reps, time.Now().Add(per), nil)
+		am.name = "lasso-mem-stem"
+		runLasso(rep, am, 1, 2, reps, time.Now().Add(per), nil)
+		runLasso(rep, alphabet{name: "lasso-level-pnodedb", kind: LevelP, paths: lp[:2], vals: []string{"x"}, flush: true, depth: 1, version: 1}, 0, 3, reps, time.Now().Add(per), nil)
+	}
+	{
 		// value sizes: every length of the small ranges, and the largest values the trie accepts
 		lens := spans(0, 300, 1000, 1050, 65530, 65540, util.MPTMaxAllowableNodeSize-1, util.MPTMaxAllowableNodeSize)
 		if tier == rt.Thorough {
@@ -183,6 +229,7 @@ func C01(tier rt.Tier) int {
 		sizeSweep(rep, "map-behaviour", lens, []StoreKind{Mem, LevelP}, 1, nil, nil)
 		widthSweep(rep, "map-behaviour", []StoreKind{Mem, LevelP}, 1, nil)
 		twoLevelSweep(rep, "map-behaviour", Mem, 1, nil)
+		prefixSweep(rep, "map-behaviour", LevelMem, 1, nil)
 		byteSweep(rep, "map-behaviour", []StoreKind{Mem, LevelP}, 1, nil)
 	}
 	rep.Set("rule", "BFS over all histories of the listed alphabets on a fresh real trie per history (replay); after every operation: return value/error judged against map model, every alphabet path looked up (raw and decoded), full value iteration compared; states merged on (model content, root, version, pending change set, writable-store keys); non-trivial = distinct merged state")
